@@ -443,6 +443,14 @@ pub fn check_scenario(_ctx: &Ctx, sc: &Scenario, t: &mut Tally) {
         c.spec.lines.push(used(7, "CAL", *r.pick(&["GASOLEO", "BIOMASA", "RED2", "EAMBIENTE", "GLP"]), &vals(&mut r, n, 100.0, 2)));
         c.spec.lines.push(used(8, "REF", *r.pick(&["GASNATURAL", "TERMOSOLAR"]), &vals(&mut r, n, 100.0, 2)));
         variants.push(("other_services_non_electric_consumption", c));
+        // ... also when those lines carry the remark of a low-SCOP heat pump (a tool copying a system's remark to all its
+        // lines, a heating heat pump tagged by analogy): the tag excludes *DHW* ambient heat, nothing else
+        let mut c = case.clone();
+        c.spec.lines.push(Line::Used { id: 7, srv: "CAL".into(), cr: "EAMBIENTE".into(), v: vals(&mut r, n, 100.0, 2), comment: "BdC calefacción CTEEPBD_EXCLUYE_SCOP_ACS".into() });
+        if r.chance(1, 2) {
+            c.spec.lines.push(Line::Used { id: 0, srv: "NEPB".into(), cr: "EAMBIENTE".into(), v: vals(&mut r, n, 50.0, 2), comment: "CTEEPBD_EXCLUYE_SCOP_ACS".into() });
+        }
+        variants.push(("other_services_ambient_heat_carrying_the_low_scop_tag", c));
         let mut c = case.clone();
         c.k = if case.k == 1.0 { 0.0 } else { 1.0 - case.k };
         variants.push(("k_exp", c));
